@@ -5,7 +5,9 @@
 //!   <small|random> --kind adjust  try_adjust_price (-> try_adjust_price_with_max_deviation_factor);
 //!                                 validate_one; from_price                                   (C29)
 //!   <small|random> --kind with    Oracle::with_prices_opts end to end on in-memory accounts
-//!                                 (Store, TokenMap, custom PriceFeed accounts)
+//!                                 (Store, TokenMap, custom PriceFeed accounts); inside the wrapped operation the
+//!                                 loaded set is judged by Oracle::validate_time (states/oracle/time.rs) against a
+//!                                 harness-owned ValidateOracleTime target and by the real MaxAgeValidator
 //! options: --seed S --n N --out F
 //! Deviation factors are k percent: FeedConfig ratio = k * 10^6, factor = k * 10^18 (unit 10^20).
 use anchor_lang::prelude::*;
@@ -354,6 +356,34 @@ struct Item {
     fd: Fd,
 }
 
+/// An operation's oracle time requirements (the harness's own implementor of the public trait).
+#[derive(Clone, Copy, Debug, Default)]
+struct Target {
+    after: Option<i64>,
+    before: Option<i64>,
+    after_slot: Option<u64>,
+}
+impl gmsol_store::states::ValidateOracleTime for Target {
+    fn oracle_updated_after(&self) -> gmsol_store::CoreResult<Option<i64>> {
+        Ok(self.after)
+    }
+    fn oracle_updated_before(&self) -> gmsol_store::CoreResult<Option<i64>> {
+        Ok(self.before)
+    }
+    fn oracle_updated_after_slot(&self) -> gmsol_store::CoreResult<Option<u64>> {
+        Ok(self.after_slot)
+    }
+}
+fn bound_json(x: Option<i64>) -> Value {
+    json!({"some": x.is_some(), "v": x.unwrap_or(0)})
+}
+fn core_name(r: gmsol_store::CoreResult<()>) -> String {
+    match r {
+        Ok(()) => String::new(),
+        Err(e) => e.name(),
+    }
+}
+
 struct World {
     store: &'static AccountInfo<'static>,
     token_map: &'static AccountInfo<'static>,
@@ -389,7 +419,8 @@ fn item_json(it: &Item) -> Value {
 }
 
 #[allow(clippy::too_many_arguments)]
-fn with_prices(sink: &mut Sink, w: &World, oracle: &mut Oracle, vs: &Vs, items: &[Item], allow_closed: bool, f_ok: bool, dirty: bool) {
+fn with_prices(sink: &mut Sink, w: &World, oracle: &mut Oracle, vs: &Vs, items: &[Item], allow_closed: bool, f_ok: bool, dirty: bool,
+               tgt: &Target, max_age: u32) {
     assert!(items.len() <= MAX_ITEMS);
     stubs::set_clock(vs.now, 100);
     // ---- load the world
@@ -450,6 +481,8 @@ fn with_prices(sink: &mut Sink, w: &World, oracle: &mut Oracle, vs: &Vs, items: 
     let mut seen: Vec<Value> = vec![];
     let mut srs = json!({"has": false, "lo": 0, "hi": 0, "slot": -1});
     let mut called = false;
+    let mut vt = "-".to_string();
+    let mut vma = "-".to_string();
     let out = guarded(|| {
         let store_loader = AccountLoader::<Store>::try_from(w.store).expect("store loader");
         let map_loader = AccountLoader::<TokenMapHeader>::try_from(w.token_map).expect("map loader");
@@ -470,6 +503,10 @@ fn with_prices(sink: &mut Sink, w: &World, oracle: &mut Oracle, vs: &Vs, items: 
                 srs = json!({"has": !o.is_cleared(), "lo": if o.is_cleared() { 0 } else { o.min_oracle_ts() },
                     "hi": if o.is_cleared() { 0 } else { o.max_oracle_ts() },
                     "slot": o.min_oracle_slot().map(|s| s as i64).unwrap_or(-1)});
+                // what an executing operation does with the loaded set: Oracle::validate_time against its own
+                // requirements (time.rs validators), and the real MaxAgeValidator
+                vt = core_name(o_hook::oracle_validate_time(o, tgt));
+                vma = core_name(o_hook::oracle_validate_max_age(o, max_age));
                 if f_ok { Ok(()) } else { Err(error!(CoreError::InvalidArgument)) }
             },
             allow_closed,
@@ -483,7 +520,9 @@ fn with_prices(sink: &mut Sink, w: &World, oracle: &mut Oracle, vs: &Vs, items: 
     let post = json!({"cleared": oracle.is_cleared(), "n": o_hook::oracle_primary_len(oracle)});
     sink.emit(json!({"op": "with_prices", "vs": vs_json(vs), "allow_closed": allow_closed, "f_ok": f_ok, "pre": pre,
         "items": items.iter().map(item_json).collect::<Vec<_>>(), "res": res, "err": err, "called": called,
-        "seen": seen, "srs": srs, "post": post, "panic": panic}));
+        "seen": seen, "srs": srs, "post": post, "panic": panic,
+        "tgt": {"after": bound_json(tgt.after), "before": bound_json(tgt.before), "slot": bound_json(tgt.after_slot.map(|x| x as i64))},
+        "max_age": max_age, "vt": vt, "vma": vma}));
 }
 
 fn good_item(now: i64) -> Item {
@@ -540,6 +579,48 @@ fn with_wide_item(rng: &mut Rng, now: i64, i: u64) -> Item {
     }
 }
 
+/// Bounds around the feeds' own adjusted timestamps / slots, so that they are straddled.
+fn rand_target(rng: &mut Rng, items: &[Item], now: i64) -> Target {
+    let it = items[rng.below(items.len() as u64) as usize];
+    let base = if rng.chance(3, 4) { it.fd.ts - it.tc.adj as i64 } else { now };
+    Target {
+        after: rng.chance(2, 3).then(|| base + rng.range(-1, 1)),
+        before: rng.chance(1, 3).then(|| base + rng.range(-1, 2)),
+        after_slot: rng.chance(1, 3).then(|| (it.fd.slot as i64 + rng.range(-1, 1)).max(0) as u64),
+    }
+}
+
+/// The bounded model's "tv" family: a good feed at `now` plus a second one around it, every bound.
+fn with_tv(sink: &mut Sink) {
+    let w = world();
+    let mut oracle: Box<Oracle> = zbox();
+    o_hook::oracle_init(&mut oracle, *w.store.key, key(2, 0));
+    let bounds = |vals: &[i64]| -> Vec<Option<i64>> { std::iter::once(None).chain(vals.iter().map(|v| Some(*v))).collect() };
+    for ts in (NOW - 3)..=(NOW + 1) {
+        for adj in 0..=1u32 {
+            for range in [0u64, 2, 3] {
+                for two in [false, true] {
+                    let mut it = good_item(NOW);
+                    it.fd.ts = ts;
+                    it.tc.adj = adj;
+                    it.fd.slot = 4;
+                    let items = if two { vec![good_item(NOW), it] } else { vec![it] };
+                    let vs = Vs { now: NOW, age: 3, range, excess: 1 };
+                    for after in bounds(&[NOW - 3, NOW - 2, NOW - 1, NOW, NOW + 1]) {
+                        for before in bounds(&[NOW - 1, NOW]) {
+                            for slot in bounds(&[5, 7]) {
+                                let ma = ((ts + adj as i64 + range as i64).rem_euclid(4)) as u32;
+                                let tgt = Target { after, before, after_slot: slot.map(|x| x as u64) };
+                                with_prices(sink, &w, &mut oracle, &vs, &items, false, true, false, &tgt, ma);
+                            }
+                        }
+                    }
+                }
+            }
+        }
+    }
+}
+
 fn with_random(sink: &mut Sink, rng: &mut Rng, n: u64) {
     let w = world();
     let mut oracle: Box<Oracle> = zbox();
@@ -550,13 +631,15 @@ fn with_random(sink: &mut Sink, rng: &mut Rng, n: u64) {
             let vs = Vs { now: NOW, age: *rng.pick(&[1u64, 3]), range: *rng.pick(&[0u64, 2]), excess: 1 };
             let it = with_small_item(rng, NOW);
             let items = if rng.chance(1, 2) { vec![good_item(NOW), it] } else { vec![it] };
-            with_prices(sink, &w, &mut oracle, &vs, &items, rng.chance(1, 2), !rng.chance(1, 3), rng.chance(1, 40));
+            let tgt = rand_target(rng, &items, NOW);
+            with_prices(sink, &w, &mut oracle, &vs, &items, rng.chance(1, 2), !rng.chance(1, 3), rng.chance(1, 40), &tgt, rng.below(4) as u32);
         } else {
             let now = rng.range(1000, 2000);
             let vs = Vs { now, age: 1 + rng.below(5), range: rng.below(5), excess: rng.below(3) };
             let k = 1 + rng.below(MAX_ITEMS as u64);
             let items: Vec<Item> = (0..k).map(|j| with_wide_item(rng, now, j)).collect();
-            with_prices(sink, &w, &mut oracle, &vs, &items, rng.chance(1, 3), !rng.chance(1, 3), rng.chance(1, 40));
+            let tgt = rand_target(rng, &items, now);
+            with_prices(sink, &w, &mut oracle, &vs, &items, rng.chance(1, 3), !rng.chance(1, 3), rng.chance(1, 40), &tgt, rng.below(7) as u32);
         }
     }
 }
@@ -575,6 +658,7 @@ fn main() {
         ("random", "batch") => batch_random(&mut sink, &mut rng, n),
         ("small", "adjust") => adjust_small(&mut sink),
         ("random", "adjust") => adjust_random(&mut sink, &mut rng, n),
+        ("small", "with") => with_tv(&mut sink),
         (_, "with") => with_random(&mut sink, &mut rng, n),
         _ => {
             eprintln!("unknown mode/kind {mode}/{kind}");
